@@ -406,6 +406,8 @@ class Reader:
                 data = self.consume("STRING")[1]
                 data = unhexlify(data)
                 ins = ir.LiteralData(data, name)
+            elif a == "undefined":
+                ins = ir.Undefined(name, ty)
             elif a in ("inf", "nan"):
                 # Non-finite floating point constant (repr of the float)
                 ins = ir.Const(float(a), name, ty)
